@@ -416,6 +416,7 @@ theorem WCore.envStep1 {s : Sys} (h : WCore s) (hr : RInv s) (combine) (w : Wid)
     | await a ts => exact h.handleAwaitPop hr hq
     | procResults a rs => exact h.handleProcResultsPop hr combine hq
     | resultResp req r => exact (h.popEvtSilent hq (fun _ => rfl)).congr rfl rfl rfl rfl rfl
+    | exited p => exact h.popEvtSilent hq (fun _ => rfl)
 
 /-! ### spawn pairing: environment side -/
 
@@ -517,6 +518,7 @@ theorem SPair.envStep1 {s : Sys} (h : SPair s) (hr : RInv s) (combine) (w : Wid)
         · exact h1.congr rfl rfl rfl
         · exact h1.pushCmdOther _ _ (fun _ => rfl)
     | resultResp req r => exact (h.popEvtOther hq (fun _ => rfl)).congr rfl rfl rfl
+    | exited p => exact h.popEvtOther hq (fun _ => rfl)
 
 /-! ### worker side: what happens to parked selects -/
 
@@ -1182,6 +1184,27 @@ theorem WInv.execStep {s : Sys} (h : WInv s) (i : Wid) (fuel : Nat) (ordQ : List
       exact Or.inl ⟨h1, by rw [← h2]; exact hpx⟩
     · obtain ⟨evs, he1, he2⟩ := hevN (fun e => ∀ p, isSpawnEvt p e = false)
       exact ⟨evs, he1, he2, fun p => by simp [hsp]⟩
+  -- the same for a final state that also reports the exit of `c`
+  have quietX : ∀ (x : WorkerSt) (c : Pid) (y : Proc), SelSub (s.wk i) x → x.spawning = (s.wk i).spawning →
+      WCore ((s.setWk i x).noteExit i c y) ∧ SPair ((s.setWk i x).noteExit i c y) := by
+    intro x c y hx hsp
+    have hevX : ∀ P : Evt → Prop, P (.exited c) →
+        ∃ evs, ((s.setWk i x).noteExit i c y).evtQ = upd s.evtQ i (s.evtQ i ++ evs) ∧ ∀ e ∈ evs, P e := by
+      intro P hP
+      rcases noteExit_evtQ (s.setWk i x) i c y with e | e
+      · exact ⟨[], by rw [e]; simp, fun _ h => by simp at h⟩
+      · exact ⟨[.exited c], by rw [e]; rfl, fun e' h => by simp only [List.mem_singleton] at h; subst h; exact hP⟩
+    have hwkX : ∀ w, w ≠ i → ((s.setWk i x).noteExit i c y).wk w = s.wk w := fun w hw => by simp [hwk0 x w hw]
+    have hPex : (∀ a ts, Evt.exited c = .await a ts → ts ≠ []) ∧ (∀ a rs, Evt.exited c = .procResults a rs → rs ≠ []) :=
+      ⟨(fun a ts he => by cases he), (fun a rs he => by cases he)⟩
+    refine ⟨h.core.afterExec (by simp) (by simp) (by simp) (hevX (fun e => (∀ a ts, e = .await a ts → ts ≠ []) ∧ (∀ a rs, e = .procResults a rs → rs ≠ [])) hPex) hwkX ?_,
+            h.pair.afterExec (by simp) hwkX (Or.inl ?_)⟩
+    · intro q x' hqs hpx
+      simp only [noteExit_wk, setWk_wk, upd_same] at hqs hpx
+      obtain ⟨h1, h2⟩ := hx q hqs
+      exact Or.inl ⟨h1, by rw [← h2]; exact hpx⟩
+    · obtain ⟨evs, he1, he2⟩ := hevX (fun e => ∀ p, isSpawnEvt p e = false) (by intro p; rfl)
+      exact ⟨evs, he1, he2, fun p => by simp [hsp]⟩
   split
   · exact quiet w0 hS0 hsp0
   · rename_i cur rest hq
@@ -1191,7 +1214,7 @@ theorem WInv.execStep {s : Sys} (h : WInv s) (i : Wid) (fuel : Nat) (ordQ : List
     · exact quiet _ hS1 hsp0
     · rename_i x hx
       split
-      · refine quiet _ ?_ (by simp [hsp0])
+      · refine quietX _ cur x ?_ (by simp [hsp0])
         intro q hqs
         obtain ⟨h1, h2⟩ := finish_selsub (w := { w0 with queue := rest }) x ordQ hqs
         have hne : q ≠ cur := fun e => hcse (e ▸ h1)
@@ -1267,14 +1290,14 @@ theorem WInv.execStep {s : Sys} (h : WInv s) (i : Wid) (fuel : Nat) (ordQ : List
             obtain ⟨evs, he1, he2⟩ := hevN (fun e => ∀ p, isSpawnEvt p e = false)
             exact ⟨evs, he1, he2, fun p => by simp [hsp0]⟩
         | failed =>
-          refine quiet _ ?_ (by simp [hsp0])
+          refine quietX _ cur x' ?_ (by simp [hsp0])
           intro q hqs
           obtain ⟨h1, h2⟩ := finish_selsub (w := { w0 with queue := rest, procs := upd w0.procs cur (some x') }) x' ordQ hqs
           have hne : q ≠ cur := fun e => hcse (e ▸ h1)
           obtain ⟨h3, h4⟩ := hS2 rest w0.spawning q h1
           exact ⟨h3, (h2 hne).trans h4⟩
         | done =>
-          refine quiet _ ?_ (by simp [hsp0])
+          refine quietX _ cur x' ?_ (by simp [hsp0])
           intro q hqs
           obtain ⟨h1, h2⟩ := finish_selsub (w := { w0 with queue := rest, procs := upd w0.procs cur (some x') }) x' ordQ hqs
           have hne : q ≠ cur := fun e => hcse (e ▸ h1)
